@@ -183,6 +183,8 @@ type cmdResult struct {
 	err     error
 	aborted bool // the command never returned (deadlock); err is set to errDeadlock
 	panics  []string
+	built   cmd.Command // the command value that was executed (for re-execution)
+	tout    string
 	out     string // contents of the text-out file
 	now     int64  // clock when the command started
 }
@@ -482,6 +484,7 @@ func (r *cliRunner) run(cmds []Cmd, tags []string) []*cmdResult {
 			res[i].err = berr
 			continue
 		}
+		res[i].built, res[i].tout = command, tout
 		if tout != "" && tout != "-" && tout != "/dev/full" {
 			os.Remove(tout)
 		}
@@ -547,6 +550,45 @@ func (r *cliRunner) run(cmds []Cmd, tags []string) []*cmdResult {
 				res[i].panics = append(res[i].panics, firstLine(p))
 			}
 		}
+	}
+	return res
+}
+
+// rerun executes the command value of an earlier result once more.
+func (r *cliRunner) rerun(prev *cmdResult, tag string) *cmdResult {
+	res := &cmdResult{now: Now(), aborted: true, err: errDeadlock, built: prev.built, tout: prev.tout}
+	if prev.tout != "" && prev.tout != "-" && prev.tout != "/dev/full" {
+		os.Remove(prev.tout)
+	}
+	r.s.Go("A0", func() {
+		defer func() {
+			if x := recover(); x != nil {
+				if IsAbort(x) {
+					panic(x)
+				}
+				res.aborted, res.err = false, nil
+				res.panics = append(res.panics, fmt.Sprintf("%v", x))
+			}
+		}()
+		err := prev.built.Execute()
+		res.err, res.aborted = err, false
+	})
+	var fds []int
+	prevTrace := r.s.LockTrace
+	r.s.LockTrace = func(ev string, g *G, fd int) {
+		if ev == "acquired" && !strings.HasPrefix(g.Name, "srv:") {
+			fds = append(fds, fd)
+		}
+	}
+	r.s.Install()
+	r.s.Run()
+	Uninstall()
+	r.s.LockTrace = prevTrace
+	for _, fd := range fds {
+		syscall.Flock(fd, syscall.LOCK_UN)
+	}
+	if prev.tout != "" && prev.tout != "-" && prev.tout != "/dev/full" {
+		res.out = string(readFile(prev.tout))
 	}
 	return res
 }
